@@ -1,4 +1,6 @@
 import TypVerif.Gen.AvlShapes
+import TypVerif.Gen.MathShapes
+import TypVerif.Gen.UtilShapes
 /-
 C01, tie 4B — GOLDEN FUNCTION SHAPES (written by tools/mkshapes.py; do not edit by hand).  For every function of the source files this property's model mirrors,
 the extractor regenerates on every run: its calls, its stores through selectors / indices / pointers, its conditions and loop headers, its select cases and
@@ -47,5 +49,15 @@ theorem gen_shapes_avl :
        ("node.rotateRight", ["store prevRoot.left", "if prevRoot.left != nil", "store prevRoot.left.height", "call prevRoot.left.calcHeight", "store prevRoot.height", "call prevRoot.calcHeight", "store newRoot.right", "store newRoot.height", "call newRoot.calcHeight", "return newRoot"]),
        ("node.rotateLeftRight", ["store n.right", "call n.right.rotateRight", "return n.rotateLeft()", "call n.rotateLeft"]),
        ("node.rotateRightLeft", ["store n.left", "call n.left.rotateLeft", "return n.rotateRight()", "call n.rotateRight"])] := rfl
+
+/-- util.go, Compare (the comparator of avl.NewOrdered) - a DEPENDENCY of the tree: 1 function(s) -/
+theorem gen_shapes_dep_compare :
+    Gen.UtilShapes.funcs.filter (fun f => (["Compare"]).contains f.1) =
+      [("Compare", ["if a > b", "return 1", "if a < b", "return -1", "return 0"])] := rfl
+
+/-- math.go, Max (used by calcHeight) - a DEPENDENCY of the tree: 1 function(s) -/
+theorem gen_shapes_dep_max :
+    Gen.MathShapes.funcs.filter (fun f => (["Max"]).contains f.1) =
+      [("Max", ["call len", "call panic", "return v[0]", "range v[1:]", "if v > max", "return max"])] := rfl
 
 end C01
